@@ -538,14 +538,19 @@ fn setup_child(
     gid: Option<GidT>,
     pgroup: Option<PidT>,
 ) -> Result<()> {
-    if let Some(fd) = theirs.stdin.fd() {
-        rusl::unistd::dup2(fd, STDIN)?;
+    let mut sources = [theirs.stdin.fd(), theirs.stdout.fd(), theirs.stderr.fd()];
+    // A source inside 0..=2 (`Stdio::RawFd(STDOUT)` for stderr, crossed streams, ...) could be overwritten
+    // by an earlier redirection before it is used, and `dup3` refuses `old == new`:
+    // move such sources above the standard range first, the `CLOEXEC` copies are gone after exec.
+    for fd in sources.iter_mut().flatten() {
+        if fd.value() <= STDERR.value() {
+            *fd = rusl::unistd::fcntl_dupfd_cloexec(*fd, Fd::comptime_checked_new(3))?;
+        }
     }
-    if let Some(fd) = theirs.stdout.fd() {
-        rusl::unistd::dup2(fd, STDOUT)?;
-    }
-    if let Some(fd) = theirs.stderr.fd() {
-        rusl::unistd::dup2(fd, STDERR)?;
+    for (fd, target) in sources.into_iter().zip([STDIN, STDOUT, STDERR]) {
+        if let Some(fd) = fd {
+            rusl::unistd::dup2(fd, target)?;
+        }
     }
     if let Some(cwd) = cwd {
         rusl::unistd::chdir(cwd)?;
